@@ -448,6 +448,45 @@ pub fn resolve<'a>(sf: &'a SourceFile, path: &str) -> std::result::Result<Cur<'a
                 _ => {}
             }
             cur = Cur::Expr(f.hit.ok_or_else(|| lost("no block with such a let and a tail expression"))?);
+        } else if let Some(n) = seg.strip_prefix("stmts-after-let ") {
+            // every statement that follows `let NAME = ..` in the block that declares it, through the end of that block
+            // (an anchor by structure: statements inserted or rewritten after the `let` stay inside the selection)
+            let name = n.trim().to_string();
+            struct G<'x> {
+                name: String,
+                hit: Option<&'x [Stmt]>,
+            }
+            impl<'x> Visit<'x> for G<'x> {
+                fn visit_block(&mut self, b: &'x Block) {
+                    if self.hit.is_none() {
+                        let pos = b.stmts.iter().position(|s| match s {
+                            Stmt::Local(l) => match &l.pat {
+                                Pat::Ident(pi) => pi.ident == self.name,
+                                Pat::Type(pt) => matches!(&*pt.pat, Pat::Ident(pi) if pi.ident == self.name),
+                                _ => false,
+                            },
+                            _ => false,
+                        });
+                        if let Some(i) = pos {
+                            if i + 1 < b.stmts.len() {
+                                self.hit = Some(&b.stmts[i + 1..]);
+                                return;
+                            }
+                        }
+                    }
+                    visit::visit_block(self, b);
+                }
+            }
+            let mut g = G { name, hit: None };
+            match &cur {
+                Cur::Arm(a) => g.visit_expr(&a.body),
+                Cur::ItemFn(x) => g.visit_block(&x.block),
+                Cur::ImplFn(x) => g.visit_block(&x.block),
+                Cur::Closure(c) => g.visit_expr(&c.body),
+                Cur::Expr(e) => g.visit_expr(e),
+                _ => {}
+            }
+            cur = Cur::Stmts(g.hit.ok_or_else(|| lost("no block with such a let followed by statements"))?);
         } else if let Some(n) = seg.strip_prefix("scrutinee#") {
             let k: usize = n.trim().parse().map_err(|_| lost("bad ordinal"))?;
             let coll = collect(&cur);
